@@ -217,6 +217,8 @@ def render_lean(g):
          "",
          "structure EntryPoint where",
          "  key : String          -- owner::name(parameter types), unique",
+         "  keyNat : Nat          -- the UTF-8 bytes of `key` read as one big-endian base-256 number (injective; the kernel",
+         "                        -- compares numbers instantly, strings slowly) -- what `Wire.Coverage.disposition` looks up",
          "  owner : String        -- class or namespace, without the leading Tins::",
          "  name : String",
          "  kind : Kind",
@@ -238,6 +240,7 @@ def render_lean(g):
     for r in g["rows"]:
         items.append(
             f'  {{ key := "{G.lean_str(r["key"])}",\n'
+            f'    keyNat := {int.from_bytes(r["key"].encode("utf-8"), "big")},\n'
             f'    owner := "{G.lean_str(r["owner"])}", name := "{G.lean_str(r["name"])}", kind := {LEAN_KIND[r["kind"]]},\n'
             f'    params := "{G.lean_str(r["params"])}", bufArg := {r["bufArg"]}, plain := {lb(r["plain"])}, auto := {lb(r["auto"])},\n'
             f'    isPdu := {lb(r["isPdu"])}, isAbstract := {lb(r["isAbstract"])}, isTemplate := {lb(r["isTemplate"])}, '
